@@ -180,9 +180,17 @@ func (w *World) exec(m *myconn, q string) *result {
 			errno = 1105
 		}
 		w.LogLocked(Event{Kind: "sql", Phase: "ret", Who: m.caller, Host: m.host, Class: class, Res: "injected", Err: errno, Mut: mut, Occ: ctx.Occ, ID: id})
+		ctx.Errno, ctx.Note = errno, "injected failure"
+		for _, f := range w.AfterStmt {
+			f(w, ctx)
+		}
 		return &result{errno: errno, msg: "injected failure"}
 	case "hang":
 		w.LogLocked(Event{Kind: "sql", Phase: "ret", Who: m.caller, Host: m.host, Class: class, Res: "hang", Err: -2, Mut: mut, Occ: ctx.Occ, ID: id})
+		ctx.Errno, ctx.Note = -2, "hang"
+		for _, f := range w.AfterStmt {
+			f(w, ctx)
+		}
 		return &result{hang: true}
 	}
 	for _, f := range w.BeforeStmt {
@@ -248,7 +256,9 @@ func (w *World) apply(m *myconn, s *Server, c *StmtCtx, id int64) *result {
 	case "version":
 		return rs([]string{"MajorVersion", "MinorVersion", "PatchVersion"}, []any{s.Version[0], s.Version[1], s.Version[2]})
 	case "is_ro":
-		return rs([]string{"ReadOnly", "SuperReadOnly"}, []any{b2i(s.ReadOnly), b2i(s.SuperRO)})
+		r := rs([]string{"ReadOnly", "SuperReadOnly"}, []any{b2i(s.ReadOnly), b2i(s.SuperRO)})
+		r.note = fmt.Sprintf("ro=%d sro=%d", b2i(s.ReadOnly), b2i(s.SuperRO))
+		return r
 	case "get_offline":
 		return rs([]string{"OfflineMode"}, []any{b2i(s.Offline)})
 	case "gtid_executed":
@@ -261,7 +271,9 @@ func (w *World) apply(m *myconn, s *Server, c *StmtCtx, id int64) *result {
 		if s.NoSemiSyncPlugin {
 			return &result{errno: 1193, msg: "Unknown system variable 'rpl_semi_sync_master_enabled'"}
 		}
-		return rs([]string{"MasterEnabled", "SlaveEnabled", "WaitSlaveCount"}, []any{b2i(s.SSMaster), b2i(s.SSSlave), s.WaitCount})
+		r := rs([]string{"MasterEnabled", "SlaveEnabled", "WaitSlaveCount"}, []any{b2i(s.SSMaster), b2i(s.SSSlave), s.WaitCount})
+		r.note = fmt.Sprintf("m=%d s=%d w=%d", b2i(s.SSMaster), b2i(s.SSSlave), s.WaitCount)
+		return r
 	case "repl_settings":
 		return rs([]string{"InnodbFlushLogAtTrxCommit", "SyncBinlog"}, []any{s.FlushLog, s.SyncBinlog})
 	case "events":
